@@ -133,6 +133,9 @@ class _InlineFunction(XPathFunction):
 
         sequence_type: str
         self.check_arguments_number(len(args))
+        if len(args) != self.arity:
+            msg = f"the function item has arity {self.arity}, called with {len(args)} arguments"
+            raise self.error('XPTY0004', msg)
 
         context = copy(context)
         if context is not None:
